@@ -446,6 +446,15 @@ func runC06(w *W) {
 		if pick("ep.t2j") {
 			c.guarded("t2j.Do", len(b), func() { tc.Do(ctx, c.desc, b) })
 		}
+		if pick("ep.t2j.into") {
+			// a small caller buffer that ends at an unmapped page: the converter has to grow it (possibly in the
+			// middle of a string) and must not write through the old one afterwards
+			ob := w.Alloc(t.Intn(64, "t2j.cap"), simrt.PlaceGuardEnd)
+			c.guarded("t2j.DoInto", len(b), func() {
+				buf := ob.B[:0]
+				tc.DoInto(ctx, c.desc, b, &buf)
+			})
+		}
 		if pick("ep.skip") {
 			c.guarded("SkipGo", len(b), func() {
 				p := thrift.BinaryProtocol{Buf: b}
